@@ -17,6 +17,6 @@ TInit == tid \in 1..Len(T) /\ verdict = "?"
 TNext == /\ verdict = "?"
          /\ verdict' = ReqVerdict(T[tid])
          /\ tid' = tid
-         /\ PrintT(<<"V", T[tid].id, verdict', ReqRange(T[tid].kind, T[tid].f)>>)
+         /\ PrintT(<<"V", T[tid].id, verdict', ReqRange(T[tid].kind, T[tid].f), ReqBroken(T[tid])>>)
 TSpec == TInit /\ [][TNext]_tvars
 =============================================================================
